@@ -291,7 +291,7 @@ Proof.
   unfold parse_work, lift_parse. pose proof (parse_good_thm data) as Hg.
   destruct (parse data) as [s| | |]; cbn in Hg; try contradiction; [|split; discriminate].
   unfold work_of_syntax.
-  rewrite (stmts_loop_no_panic _ known_work_block true (f_stmt s) O _ (file_ok_tokens_nonempty _ _ Hg) eq_refl).
+  rewrite (stmts_loop_no_panic _ known_work_block true (f_stmt s) O (mkLS (empty_work s) [] [] false) (file_ok_tokens_nonempty _ _ Hg) eq_refl).
   destruct (lp_errs_r _); split; discriminate.
 Qed.
 
@@ -302,7 +302,7 @@ Proof.
   unfold parse_to_file, lift_parse. pose proof (parse_good_thm data) as Hg.
   destruct (parse data) as [s| | |]; cbn in Hg; try contradiction; [|split; discriminate].
   unfold file_of_syntax. cbn [fix_retract].
-  rewrite (stmts_loop_no_panic _ known_mod_block strict (f_stmt s) O _ (file_ok_tokens_nonempty _ _ Hg) eq_refl).
+  rewrite (stmts_loop_no_panic _ known_mod_block strict (f_stmt s) O (mkLS (empty_file s) [] [] false) (file_ok_tokens_nonempty _ _ Hg) eq_refl).
   destruct (lp_errs_r _); split; discriminate.
 Qed.
 
@@ -314,6 +314,8 @@ Definition k1_witness : str := B "require (
 module example.com/m
 ".
 
+Definition k1_result := Eval vm_compute in parse_to_file true None k1_witness.
+
 (* modulepath_agrees without the hypothesis "no earlier line's first token is module" is
    false of the faithful model: the strict parser accepts the witness, its module directive
    is a single line naming a valid import path, and ModulePath returns "v1.0.0" *)
@@ -324,11 +326,8 @@ Theorem modulepath_agrees_refuted :
     module_path data <> mv_path (md_mod m).
 Proof.
   exists k1_witness.
-  destruct (parse_to_file true None k1_witness) as [f| | | |] eqn:E;
-    try (vm_compute in E; discriminate).
-  destruct (fd_module f) as [m|] eqn:Em.
-  - exists f, m. split; [reflexivity|]. split; [reflexivity|].
-    vm_compute in E. injection E as <-. vm_compute in Em. injection Em as <-.
-    split; [reflexivity|]. split; [vm_compute; reflexivity|]. vm_compute. discriminate.
-  - exfalso. vm_compute in E. injection E as <-. vm_compute in Em. discriminate.
+  assert (E : parse_to_file true None k1_witness = k1_result) by (vm_compute; reflexivity).
+  unfold k1_result in E.
+  eexists. eexists. split; [exact E|]. split; [reflexivity|]. split; [reflexivity|].
+  split; vm_compute; [reflexivity|discriminate].
 Qed.
